@@ -387,4 +387,11 @@ def deleteRef (df : Defects) (rooms : List Room) (db : Db) (caller : Key) (now :
             .ok (resign { without with edgeTombs := upsertEdgeTomb without.edgeTombs tomb })
           else .error .rejected
 
+/-- `delete { sys.Room { $room admin[$entry] } }` on the stored room row, seen as (author of the room row, ids
+    of its admin entries). The room row has no `room_id`, so no right is checked; the guard on system
+    entities is the only protection. Returns the new (author, admin entries). -/
+def deleteRoomAdminRef (df : Defects) (roomAuthor : Key) (adminIds : List Nat) (caller : Key) (entry : Nat) :
+    Except MErr (Key × List Nat) :=
+  if df.sysRefDeletionUnguarded then .ok (caller, adminIds.filter (· ≠ entry)) else .error .deleteNotAllowed
+
 end Discret.LocalWrite
